@@ -803,11 +803,13 @@ CELER_FUNCTION void OrangeTrackView::set_dir(Real3 const& newdir)
             },
             lsa.universe());
 
-        // Normal is in *local* coordinates but newdir is in *global*: rotate
-        // up to check
+        // Normal is in the *local* coordinates of the surface's level but
+        // newdir is in *global*: rotate up through the levels above the
+        // surface to check
         auto apply_transform = TransformVisitor{params_};
         auto rotate_up = [&normal](auto&& t) { normal = t.rotate_up(normal); };
-        for (auto level : range<int>(this->level().unchecked_get()).step(-1))
+        for (auto level :
+             range<int>(this->surface_level().unchecked_get()).step(-1))
         {
             apply_transform(rotate_up, this->get_transform(LevelId(level)));
         }
